@@ -66,7 +66,13 @@ func init() {
 	addRules("C07", "R-LOGGED", "R-LOGPURE")
 	addRules("C12", "R-LOGGED")
 	addRules("C10", "R-RECOVER-ORDER")
-	addRules("C09", "R-ENTRY-PRESENT")
+	addRules("C09", "R-ENTRY-PRESENT", "R-SIZEPAIR")
+	addRules("C19", "R-SIZEPAIR")
+	addRules("C20", "R-TXPAIR")
+	addRules("C21", "R-RAWREAD")
+	reg("R-RAWREAD", "Every call of RWManager.ReadAt outside the RWManager implementations sits in a function whose every possibly non-nil record return is dominated by the CRC comparison: segment bytes reach callers only through the verifying decoder.", ruleRawRead)
+	addRules("C17", "R-MERGE-COMMITTED")
+	reg("R-SIZEPAIR", "DataFile.writeOff (where Commit writes) and DataFile.ActualSize (what Commit tests to rotate) move together: every advance of one stands next to the same advance of the other on the same object, and when Open restores DB.ActiveFile.writeOff from the scan of the active segment it restores DB.ActiveFile.ActualSize (on the database's active file, not a temporary handle) with the running scan offset.", ruleSizePair)
 	addRules("C19", "R-ENTRY-PRESENT")
 	addRules("C08", "R-ENTRY-PRESENT")
 	reg("R-ENTRY-PRESENT", "Every Record built in the cone of Open carries a non-nil entry unless ds == DataStructureBPTree is established on the path that supplies the nil: list, set and sorted-set records are replayed from their payload in every index mode.", ruleEntryPresent)
